@@ -176,6 +176,36 @@ class FuncFacts:
             return hits[0].value
         return None
 
+    def def_at(self, name: str, at: ast.AST) -> Optional[ast.expr]:
+        """Value of the unique plain assignment `name = <expr>` reaching statement `at`, provided the names it reads
+        have the same reaching definitions at both places (so the expression still denotes the same value)."""
+        from .rules.common import ReachingDefs
+        rd = getattr(self, "_rd", None)
+        if rd is None:
+            rd = ReachingDefs(self.cfg)
+            self._rd = rd
+        nodes = self.cfg.nodes_of(at)
+        if not nodes:
+            return None
+        use = nodes[0]
+        defs = rd.defs_at(use, name)
+        if len(defs) != 1 or defs[0] is None:
+            return None
+        d = defs[0]
+        if not (isinstance(d, ast.Assign) and len(d.targets) == 1 and isinstance(d.targets[0], ast.Name)):
+            return None
+        dn = self.cfg.nodes_of(d)
+        if not dn:
+            return None
+        for fn in names_in(d.value):
+            if fn == name:
+                return None
+            a = [id(x) for x in rd.defs_at(dn[0], fn)]
+            b = [id(x) for x in rd.defs_at(use, fn)]
+            if a != b:
+                return None
+        return d.value
+
     def canon(self, text: str) -> str:
         """Normal form of an expression given as source text (to compare with norm(expr, subst=False))."""
         return norm(ast.parse(text, mode="eval").body, self.folder, self.scope, None)
@@ -326,12 +356,12 @@ class FuncFacts:
                  depth: int = 0) -> Tuple[Optional[int], Optional[int]]:
         """[lo, hi] (None = unbounded) of integer expression `e` at statement `at`."""
         facts = self.facts_at(at) if at is not None else []
-        return _Interval(self, facts, env or {}).ev(e, depth)
+        return _Interval(self, facts, env or {}, at).ev(e, depth)
 
 
 class _Interval:
-    def __init__(self, ff: FuncFacts, facts, env):
-        self.ff, self.facts, self.env = ff, facts, env
+    def __init__(self, ff: FuncFacts, facts, env, at=None):
+        self.ff, self.facts, self.env, self.at = ff, facts, env, at
         self.defs = ff.single_defs()
 
     def const(self, e):
@@ -369,15 +399,47 @@ class _Interval:
                 lo, hi = _refine(lo, hi, op, b, left=False)
         return (lo, hi)
 
+    def _len_alias(self, a):
+        """An expression with the same length as `a` (copies and conditional copies of one buffer)."""
+        def base_of(x):
+            if isinstance(x, ast.Call):
+                d = dotted(x.func) or ""
+                if isinstance(x.func, ast.Attribute) and x.func.attr in ("tobytes",) and not x.args:
+                    return x.func.value
+                if d in ("bytes", "bytearray", "memoryview") and len(x.args) == 1:
+                    return x.args[0]
+                return None
+            if isinstance(x, ast.IfExp):
+                l, r = base_of(x.body) or x.body, base_of(x.orelse) or x.orelse
+                if src_(l) == src_(r):
+                    return l
+                return None
+            return None
+        if isinstance(a, ast.Name):
+            d = self.ff.one_def(a.id)
+            if d is not None:
+                b = base_of(d)
+                if b is not None:
+                    return b
+        return base_of(a)
+
     def _structural(self, e, depth):
         ev = lambda x: self.ev(x, depth + 1)  # noqa
         if isinstance(e, ast.Name) and e.id in self.defs:
             return ev(self.defs[e.id])
+        if isinstance(e, ast.Name) and self.at is not None:
+            d = self.ff.def_at(e.id, self.at)
+            if d is not None and not any(isinstance(c, ast.Call) and (dotted(c.func) or "") not in ("len", "min", "max", "int", "bool", "abs")
+                                         for c in ast.walk(d)):
+                return ev(d)
         if isinstance(e, ast.Call):
             d = dotted(e.func)
             if d == "len" and len(e.args) == 1:
                 a = e.args[0]
                 hi = None
+                alias = self._len_alias(a)
+                if alias is not None and src_(alias) != src_(a):
+                    return self.ev(ast.Call(func=ast.Name(id="len", ctx=ast.Load()), args=[alias], keywords=[]), depth + 1)
                 if isinstance(a, ast.Name) and a.id in self.defs:
                     a = self.defs[a.id]
                 if isinstance(a, ast.Subscript) and isinstance(a.slice, ast.Slice) and a.slice.step is None:
@@ -429,6 +491,13 @@ class _Interval:
             a, b = ev(e.body), ev(e.orelse)
             return (_min(a[0], b[0]), _max(a[1], b[1]))
         return (None, None)
+
+
+def src_(e):
+    try:
+        return ast.unparse(e)
+    except Exception:  # noqa
+        return ""
 
 
 def _min(a, b):
